@@ -88,6 +88,16 @@ func init() {
 			// AV1: free packet space at the LEB128 size boundaries (the MTU bound is tightest there)
 			emitAv1LebEdges(r.Fork(808080), []int{128, 16384}, emit)
 			emitH264Extremes(r.Fork(808082), emit)
+			// the stateless audio payloaders, one instance over several calls: what an earlier call returned stays
+			// what it was (owned copies), a fragment fed back in is an input like any other
+			for k := 0; k < 60; k++ {
+				c := r.Fork(uint64(808100 + k))
+				calls := TList{}
+				for j, jn := 0, 2+c.Intn(4); j < jn; j++ {
+					calls = append(calls, TList{TI(int64(c.Pick(1, 2, 3, 7, 1+c.Intn(50), 1200))), TB(c.Bytes(c.Pick(1, 2, 3, 1+c.Intn(40), 1+c.Intn(300))))})
+				}
+				emit(1606, TI(int64(k%3)), calls)
+			}
 			// every one-byte input, and 256 two-byte inputs over the bit patterns the header parsers
 			// branch on, through every payloader and option setting (64 calls per instance): the first
 			// byte alone decides how far a parser reads
